@@ -14,8 +14,10 @@ enum Elem {
     Unit,
     Str,
     Arr3,
+    Aligned32,
+    Big72,
 }
-const ELEMS: [Elem; 5] = [Elem::U8, Elem::U64, Elem::Unit, Elem::Str, Elem::Arr3];
+const ELEMS: [Elem; 7] = [Elem::U8, Elem::U64, Elem::Unit, Elem::Str, Elem::Arr3, Elem::Aligned32, Elem::Big72];
 
 #[derive(Serialize, Deserialize, Debug, Clone, Copy, Hash, PartialEq, Eq)]
 enum Group {
@@ -42,8 +44,47 @@ trait El: Clone + PartialEq + std::fmt::Debug {
     const ZST: bool = false;
     fn make(i: usize) -> Self;
     fn sentinel() -> Self;
+    /// try_into_array(_mut) with array lengths congruent to the slice length modulo 2^8 / 2^16 / 2^32 (only the
+    /// conversion: no element is touched).  Implemented for the element types small enough for `[T; 2^56 + 1]` to be
+    /// a valid type (at most 2^61 bytes).
+    fn congruent_arrays(_s: &[Self], _m: &mut Vec<Self>) -> Result<(), String> {
+        Ok(())
+    }
+}
+fn congr<T: El, const N: usize>(s: &[T], m: &mut Vec<T>) -> Result<(), String> {
+    let len = s.len();
+    let k = ks::try_into_array::<T, N>(s);
+    if k.is_ok() != (len == N) {
+        return Err(format!("try_into_array::<{N}> len {len}: konst ok={}", k.is_ok()));
+    }
+    let k = ks::try_into_array_mut::<T, N>(m);
+    if k.is_ok() != (len == N) {
+        return Err(format!("try_into_array_mut::<{N}> len {len}: konst ok={}", k.is_ok()));
+    }
+    Ok(())
+}
+macro_rules! congruent_impl {
+    () => {
+        fn congruent_arrays(s: &[Self], m: &mut Vec<Self>) -> Result<(), String> {
+            congr::<Self, 256>(s, m)?;
+            congr::<Self, 257>(s, m)?;
+            congr::<Self, 258>(s, m)?;
+            congr::<Self, 259>(s, m)?;
+            congr::<Self, 65536>(s, m)?;
+            congr::<Self, 65537>(s, m)?;
+            congr::<Self, 65538>(s, m)?;
+            congr::<Self, 65539>(s, m)?;
+            congr::<Self, { 1 << 32 }>(s, m)?;
+            congr::<Self, { (1 << 32) + 1 }>(s, m)?;
+            congr::<Self, { (1 << 32) + 2 }>(s, m)?;
+            congr::<Self, { (1 << 32) + 3 }>(s, m)?;
+            congr::<Self, { (1 << 40) + 3 }>(s, m)?;
+            congr::<Self, { (1 << 56) + 1 }>(s, m)
+        }
+    };
 }
 impl El for u8 {
+    congruent_impl!();
     fn make(i: usize) -> u8 {
         (i % 251) as u8
     }
@@ -52,6 +93,7 @@ impl El for u8 {
     }
 }
 impl El for u64 {
+    congruent_impl!();
     fn make(i: usize) -> u64 {
         i as u64 * 0x0101_0101_0101 + 7
     }
@@ -60,6 +102,7 @@ impl El for u64 {
     }
 }
 impl El for () {
+    congruent_impl!();
     const ZST: bool = true;
     fn make(_: usize) {}
     fn sentinel() {}
@@ -72,7 +115,28 @@ impl El for String {
         "SENTINEL".to_string()
     }
 }
+/// over-aligned element (size 32, alignment 32) and a large one (72 bytes, alignment 8)
+#[derive(Clone, PartialEq, Debug)]
+#[repr(align(32))]
+pub struct A32(u8);
+impl El for A32 {
+    fn make(i: usize) -> A32 {
+        A32((i % 251) as u8)
+    }
+    fn sentinel() -> A32 {
+        A32(255)
+    }
+}
+impl El for [u64; 9] {
+    fn make(i: usize) -> [u64; 9] {
+        [i as u64; 9]
+    }
+    fn sentinel() -> [u64; 9] {
+        [u64::MAX; 9]
+    }
+}
 impl El for [u8; 3] {
+    congruent_impl!();
     fn make(i: usize) -> [u8; 3] {
         [i as u8, (i >> 8) as u8, 1]
     }
@@ -371,20 +435,7 @@ fn check_len<T: El>(len: usize) -> Result<(), String> {
     arr_checks::<T, 32>(s, &mut m)?;
     arr_checks::<T, 33>(s, &mut m)?;
     arr_checks::<T, 64>(s, &mut m)?;
-    // array lengths congruent to the slice length modulo 2^8 / 2^16 / 2^32 (only conversions: no element is touched)
-    macro_rules! congruent_n {
-        ($($n:expr),*) => {$({
-            const N: usize = $n;
-            let k = ks::try_into_array::<T, N>(s);
-            ensure!(k.is_ok() == (len == N), "try_into_array::<{N}> len {len}: konst ok={}", k.is_ok());
-            let k = ks::try_into_array_mut::<T, N>(&mut m);
-            ensure!(k.is_ok() == (len == N), "try_into_array_mut::<{N}> len {len}: konst ok={}", k.is_ok());
-        })*};
-    }
-    if std::mem::size_of::<T>() <= 8 {
-        // ([T; N] must be a valid type: N * size_of::<T>() <= isize::MAX)
-        congruent_n!(256, 257, 258, 259, 65536, 65537, 65538, 65539, (1 << 32), (1 << 32) + 1, (1 << 32) + 2, (1 << 32) + 3, (1 << 40) + 3, (1 << 56) + 1);
-    }
+    T::congruent_arrays(s, &mut m)?;
     // first_mut / last_mut / split_first_mut / split_last_mut
     let base = m.as_ptr() as usize;
     let sz = std::mem::size_of::<T>();
@@ -483,6 +534,8 @@ pub fn run_case(c: &Case) -> Result<(), String> {
         Elem::Unit => dispatch!(()),
         Elem::Str => dispatch!(String),
         Elem::Arr3 => dispatch!([u8; 3]),
+        Elem::Aligned32 => dispatch!(A32),
+        Elem::Big72 => dispatch!([u64; 9]),
     }
 }
 
@@ -555,7 +608,7 @@ fn explore(ctx: &mut Ctx) {
         }
     }
     ctx.exhaustive_part(&format!(
-        "lengths {{0..={},64,1000}} x 5 element types x index set {{0..=len+2, usize::MAX, usize::MAX-1, isize::MAX-1..=isize::MAX+1, usize::MAX-len(+1)}} x all pairs; N in {{0,1,2,3,4,5,7,8,9,15,16,17,31,32,33,64}} for array/chunk conversions, N = len + 2^8 / 2^16 / 2^32 / 2^40 / 2^56 for try_into_array(_mut); indices also small + 2^8 / 2^16 / 2^32 / 2^63",
+        "lengths {{0..={},64,1000}} x 7 element types (u8, u64, (), String, [u8;3], a 32-byte-aligned struct, [u64;9]) x index set {{0..=len+2, usize::MAX, usize::MAX-1, isize::MAX-1..=isize::MAX+1, usize::MAX-len(+1)}} x all pairs; N in {{0,1,2,3,4,5,7,8,9,15,16,17,31,32,33,64}} for array/chunk conversions, N = len + 2^8 / 2^16 / 2^32 / 2^40 / 2^56 for try_into_array(_mut); indices also small + 2^8 / 2^16 / 2^32 / 2^63",
         ctx.by_tier(16, 33)
     ));
     // zero-sized elements, more than isize::MAX of them
@@ -575,7 +628,7 @@ fn explore(ctx: &mut Ctx) {
     // random: arbitrary usize indices, lengths up to 200
     let n = ctx.by_tier(200_000, 2_000_000);
     let strat = (
-        0usize..5,
+        0usize..7,
         prop_oneof![0usize..20, 0usize..200],
         idx_strategy(),
         idx_strategy(),
